@@ -68,3 +68,24 @@ func init() {
 	propSpecs["C17"] = &PropSpec{ID: "C17", Roots: []string{"(*Publish).WellFormed", "(*TopicFilter).WellFormed", "(*Subscribe).WellFormed", "(*Publish).String", "(*Subscribe).String"},
 		Note: "WellFormed of Publish, TopicFilter and Subscribe returns an error exactly under the documented conditions (iff postconditions over all packet states; the filter loop with a quantified invariant); String() is produced by the 'malformed!' format exactly when WellFormed() != nil (ghost: which constant format string produced a Sprintf result)"}
 }
+
+func init() {
+	propSpecs["C14"] = &PropSpec{ID: "C14", Prepare: prepareC14,
+		Roots: []string{"(*bindata).UnmarshalBinary", "(*rawdata).UnmarshalBinary", "(*UserProp).UnmarshalBinary", "(*fixedHeader).ReadRemaining"},
+		Note: "for each of the 16 UnmarshalBinary methods: (1) the heap frame obligations prove that nothing that existed before the call is written except the receiver's own fields and the spare capacity of its lists - in particular no byte of the input slice; (2) generated from the struct definitions, every slice, string or pointer field of the packet afterwards is nil, allocated by this call, or unchanged, so it cannot refer to the input; the wire-type decoders are proved to return freshly allocated values; ReadRemaining returns a freshly allocated packet. Hence overwriting the input or decoding another frame cannot change an accessor"}
+}
+
+func init() {
+	readOnly := append(methodsOf(packetTypes, "WriteTo"), methodsOf(packetTypes, "String")...)
+	readOnly = append(readOnly, methodsOf(packetTypes, "fill")...)
+	for _, t := range packetTypes {
+		if t != "PingReq" && t != "PingResp" {
+			readOnly = append(readOnly, "(*"+t+").dump")
+		}
+	}
+	readOnly = append(readOnly, "(*Undefined).String", "(*Undefined).WriteTo", "(*Publish).WellFormed", "(*Subscribe).WellFormed", "(*TopicFilter).WellFormed", "(*UserProperties).dump", "(*UserProperties).properties")
+	note := "(a) for WriteTo, String, dump, WellFormed, fill and every accessor of every packet type the heap frame obligations prove that no memory that existed before the call is written (only fresh allocations, the caller's writer and ghost counters); (b) every range over a map on these paths is proved to iterate over at most one key, so the encoded bytes do not depend on iteration order; (c) syntactic scans over the SSA of the whole package: no function stores to a package-level variable and none uses goroutines, channels, select, time, random, os or sync. With the functional encoder contracts (C02/C10) equal packet states therefore give equal bytes in any process"
+	propSpecs["C11"] = &PropSpec{ID: "C11", Roots: readOnly, Prepare: prepareC11, Extra: scanPackage, Note: note}
+	propSpecs["C13"] = &PropSpec{ID: "C13", Roots: append(append([]string{}, readOnly...), "(*fixedHeader).ReadRemaining", "ReadPacket"), Prepare: prepareC11, Extra: scanPackage,
+		Note: "a data race needs a write to memory shared between goroutines: " + note + "; ReadPacket writes only to objects it allocates (freshness postcondition) and to the caller's distinct stream. Under the Go memory model operations without writes to shared memory are race free and each goroutine's run equals a sequential run. No schedule is executed and the race detector is not used"}
+}
